@@ -11,3 +11,4 @@ CONSTANTS RY = 4
           TwiddleBug = FALSE
 INVARIANT IntensityConserved
 INVARIANT Orthogonal
+INVARIANT WaveEnergy
